@@ -353,7 +353,17 @@ class PlatCalInterp(Base):
         return len(self.b._platformMap)
 
     def exposed(self):
-        return list(self.b.platforms)
+        got = self.b.platforms
+        pairs = list(got)
+        if isinstance(got, list) and got:
+            # what the accessor hands out is the caller's: using it as a work list (reversing, emptying it) is not an edit of the block
+            got.reverse()
+            got.pop()
+            again = list(self.b.platforms)
+            if [(int(c), id(p)) for c, p in again] != [(int(c), id(p)) for c, p in pairs]:
+                self.ctx.fail("accessor-result-aliased", f"platCal: the list returned by .platforms was reversed and shortened by the caller; .platforms now reports "
+                                                         f"{len(again)} pairs instead of the {len(pairs)} it reported a moment ago")
+        return pairs
 
     def encoded_pairs(self, where):
         ok, w = self.ctx.must(lambda: specs.lib_write(self.b), f"{where}/encode", "encoding the platform calibration block")
